@@ -78,13 +78,23 @@ func (rg *refGroup) collectSymbols(refname string) (bool, []sizes.RefGroupSymbol
 // gitconfig and returns the result. It is not considered an error if
 // there are no usable config entries for the filter.
 func (rg *refGroup) augmentFromConfig(configger Configger) error {
-	config, err := configger.GetConfig(fmt.Sprintf("refgroup.%s", rg.Symbol))
+	// Read the whole "refgroup" section and pick the entries of this
+	// group by their exact symbol. (Asking for the prefix
+	// "refgroup.<symbol>" would go wrong for a symbol that ends with
+	// '.', like `[refgroup "foo."]`, because a trailing '.' in a
+	// prefix has a special meaning.)
+	config, err := configger.GetConfig("refgroup")
 	if err != nil {
 		return err
 	}
 
 	for _, entry := range config.Entries {
-		switch entry.Key {
+		symbol, key := splitKey(entry.Key)
+		if symbol != rg.Symbol {
+			continue
+		}
+
+		switch key {
 		case "name":
 			rg.Name = entry.Value
 		case "include":
